@@ -21,6 +21,7 @@ var checks = map[string]func(*Ctx){
 	"C02": checkC02,
 	"C03": checkC03,
 	"C04": checkC04,
+	"C05": checkC05,
 	"C06": checkC06,
 	"C07": checkC07,
 	"C12": checkC12,
